@@ -299,6 +299,139 @@ class Gen:
         vid, atts, hsz = self.att_target(s)
         self.send('DELATT %d %d %s' % (s, vid, tok(self.existing_att_name(atts, hsz))), 'mut')
 
+    def name_into_bucket(self, target, existing, size):
+        """a fresh legal name whose normalised form hashes into the same bucket as `target` (table size `size`)"""
+        t = bern(target, size)
+        for _ in range(200000):
+            c = self.ascii_name(2, 8)
+            if bern(c, size) == t and c not in existing:
+                return c
+        return None
+
+    def gadget_unsorted_delete(self, s, vid=None, reopen=None):
+        """rename a LOW id into the bucket of a HIGHER id (hash_replace appends: the bucket is no longer increasing), delete an id
+        strictly between the two (hash_delete must still renumber the higher id), then look the higher one up / overwrite it;
+        optionally enddef + close + reopen.  Define mode only."""
+        r = self.rng
+        sl = self.slots[s]
+        if not (sl.open and sl.indef and not sl.rdonly):
+            return False
+        if vid is None:
+            vid = -1 if (not sl.vars or r.chance(1, 2)) else r.below(len(sl.vars))
+        hsz = self.sizes[s][2] if vid == -1 else self.sizes[s][3]
+        atts = lambda: (sl.gatts if vid == -1 else sl.vars[vid]['atts'])
+        guard = 0
+        while len(atts()) < 4 + r.below(3) and guard < 8:
+            guard += 1
+            nm = self.fresh_name([a[0] for a in atts()], hsz, r.choice(['ascii', 'short', 'collide']))
+            self.send('PUTATT %d %d %s T 2 2 %d %d' % (s, vid, tok(nm), r.range(32, 120), r.range(32, 120)), 'mut')
+            self.refresh(s)
+        A = [a for a in atts() if a[0] != FILLVALUE]
+        idx = [i for i, a in enumerate(atts()) if a[0] != FILLVALUE]
+        if len(A) < 3:
+            return False
+        lo = r.below(len(A) - 2)
+        hi = r.range(lo + 2, len(A) - 1)
+        mid = r.range(lo + 1, hi - 1)
+        low, high, middle = A[lo], A[hi], A[mid]
+        new = self.name_into_bucket(high[0], [a[0] for a in atts()], hsz)
+        if new is None:
+            return False
+        self.count('seq:rename-low-id-into-bucket-of-higher-id:%s:hsize%d' % ('gatt' if vid == -1 else 'vatt', hsz))
+        if self.model(self.send('RENATT %d %d %s %s' % (s, vid, tok(low[0]), tok(new)), 'mut')) != '0':
+            self.refresh(s)
+            return False
+        self.refresh(s)
+        ok = self.model(self.send('DELATT %d %d %s' % (s, vid, tok(middle[0])), 'mut')) == '0'
+        self.refresh(s)
+        if not ok:
+            return False
+        self.count('seq:then-delete-id-between')
+        # the higher attribute must still be found by name, and an overwrite must not append a duplicate
+        self.send('INQATTID %d %d %s' % (s, vid, tok(high[0])), 'inq')
+        self.send('GETATT %d %d %s %s' % (s, vid, tok(high[0]), 'T' if high[1] == 2 else 'L'), 'inq')
+        if high[1] == 2:
+            self.send('PUTATT %d %d %s T 2 1 %d' % (s, vid, tok(high[0]), r.range(32, 120)), 'mut')
+        else:
+            self.send('PUTATT %d %d %s L %d 1 1' % (s, vid, tok(high[0]), high[1]), 'mut')
+        self.refresh(s)
+        self.send('INQATTID %d %d %s' % (s, vid, tok(new)), 'inq')
+        if r.chance(1, 2):      # a second delete while the bucket is still unsorted
+            rest = [a for a in atts() if a[0] not in (FILLVALUE, nfc(new))]
+            if rest:
+                self.send('DELATT %d %d %s' % (s, vid, tok(r.choice(rest)[0])), 'mut')
+                self.refresh(s)
+                self.count('seq:second-delete')
+        if reopen if reopen is not None else r.chance(1, 3):
+            self.count('seq:then-close-reopen')
+            if self.model(self.send('ENDDEF %d' % s, 'mode')) == '0':
+                sl.indef, sl.ever_enddef = False, True
+                self.refresh(s)
+                self.send('DISK %d' % s, 'disk')
+            self.do_close(s)
+            self.do_open(s, True)
+            if self.slots[s].open and self.model(self.send('REDEF %d' % s, 'mode')) == '0':
+                self.slots[s].indef = True
+        return True
+
+    def gadget_rename_into_bucket(self, s, what):
+        """dims / vars: ncmpio_update_name_lookup_table appends too — rename a low id into the bucket of a higher id, then every
+        lookup by name (DUMP) and the bucket lists (TAB) are compared; works in define and data mode (same length in data mode)"""
+        r = self.rng
+        sl = self.slots[s]
+        objs = [d[0] for d in sl.dims] if what == 'dim' else [v['name'] for v in sl.vars]
+        if len(objs) < 2 or not sl.open or sl.rdonly:
+            return False
+        hsz = self.sizes[s][0 if what == 'dim' else 1]
+        lo = r.below(len(objs) - 1)
+        hi = r.range(lo + 1, len(objs) - 1)
+        new = self.name_into_bucket(objs[hi], objs, hsz)
+        if new is None:
+            return False
+        if not sl.indef:
+            if len(objs[lo]) < 2:
+                return False
+            t = bern(objs[hi], hsz)
+            new = None
+            for _ in range(200000):
+                c = self.ascii_name(len(objs[lo]), len(objs[lo]))
+                if bern(c, hsz) == t and c not in objs:
+                    new = c
+                    break
+            if new is None:
+                return False
+        self.count('seq:rename-low-id-into-bucket-of-higher-id:%s:hsize%d' % (what, hsz))
+        self.send('%s %d %d %s' % ('RENDIM' if what == 'dim' else 'RENVAR', s, lo, tok(new)), 'mut')
+        self.refresh(s)
+        self.send('%s %d %s' % ('INQDIMID' if what == 'dim' else 'INQVARID', s, tok(objs[hi])), 'inq')
+        self.send('%s %d %s' % ('INQDIMID' if what == 'dim' else 'INQVARID', s, tok(new)), 'inq')
+        if not sl.indef and sl.ever_enddef:
+            self.send('DISK %d' % s, 'disk')
+        return True
+
+    def directed_unsorted(self, sizes, fmt):
+        """directed history: one file with the given table sizes [dim, var, gattr, vattr]; the rename-then-delete sequence on the
+        global list and on two variables' lists, rename-into-bucket for dims and vars, then close / reopen with other sizes"""
+        self.fmts = [fmt, fmt]
+        self.force_sizes = list(sizes)
+        self.do_create(0)
+        self.force_sizes = None
+        for nm, sz in ((b'x', 3), (b'y', 2), (b'zz', 4), (b'time', 0)):
+            self.send('DEFDIM 0 %s %d' % (tok(nm), sz), 'mut')
+        for nm in (b'va', b'vb', b'vc'):
+            self.send('DEFVAR 0 %s 4 1 0' % tok(nm), 'mut')
+        self.refresh(0)
+        self.gadget_unsorted_delete(0, -1, reopen=False)
+        self.gadget_unsorted_delete(0, 0, reopen=False)
+        self.gadget_rename_into_bucket(0, 'dim')
+        self.gadget_rename_into_bucket(0, 'var')
+        self.gadget_unsorted_delete(0, 1, reopen=True)
+        self.gadget_unsorted_delete(0, -1, reopen=True)
+        self.gadget_rename_into_bucket(0, 'dim')
+        self.gadget_rename_into_bucket(0, 'var')
+        self.gadget_unsorted_delete(0, 2, reopen=False)
+        self.do_close(0)
+
     def op_copyatt(self, s):
         r = self.rng
         s2 = s
@@ -419,6 +552,8 @@ class Gen:
 
     def sizes_for_episode(self):
         r = self.rng
+        if getattr(self, 'force_sizes', None):
+            return list(self.force_sizes)
         return [r.choice([1, 2, 8, 256, 3, 64]) for _ in range(4)]
 
     def do_open(self, s, write):
@@ -492,6 +627,12 @@ class Gen:
                     self.op_defdim(s)
                 elif k < 33:
                     self.op_defvar(s)
+                elif k < 38:
+                    if r.chance(3, 4):
+                        self.gadget_unsorted_delete(s)
+                    else:
+                        self.gadget_rename_into_bucket(s, r.choice(['dim', 'var']))
+                    continue
                 elif k < 60:
                     self.op_putatt(s)
                 elif k < 68:
@@ -518,6 +659,9 @@ class Gen:
                     self.op_putatt(s)
                 elif k < 60:
                     self.op_renatt(s)
+                elif k < 62:
+                    self.gadget_rename_into_bucket(s, r.choice(['dim', 'var']))
+                    continue
                 elif k < 68:
                     self.op_rendim(s)
                 elif k < 76:
@@ -616,6 +760,18 @@ def run_check(tier, seed):
                     scripts.append(('corpus/' + fn, L, p.stdout.split('\n')[:len(L)], ['mode'] + ['corpus'] * (len(L) - 1)))
         dist = {}
         t1 = Timer()
+        # directed histories: rename a low id into the bucket of a higher id, delete an id between them (attributes, global and
+        # per variable), rename-into-occupied-bucket for dims and vars, close/reopen — table sizes 1, 2, 3 and the defaults
+        for di, (sizes, fmt) in enumerate([((1, 1, 1, 1), 1), ((2, 2, 2, 2), 2), ((3, 3, 3, 3), 5), ((256, 256, 64, 8), 5)]):
+            p = subprocess.Popen([drv], stdin=subprocess.PIPE, stdout=subprocess.PIPE, text=True, bufsize=1)
+            g = Gen(rng, p, 0)
+            g.send(cfg, 'mode')
+            g.directed_unsorted(sizes, fmt)
+            p.stdin.close()
+            p.wait()
+            scripts.append(('unsorted-bucket-%d' % di, g.lines, g.answers, g.tags))
+            for k, v in g.dist.items():
+                dist[k] = dist.get(k, 0) + v
         for ep in range(nep):
             p = subprocess.Popen([drv], stdin=subprocess.PIPE, stdout=subprocess.PIPE, text=True, bufsize=1)
             g = Gen(rng, p, nops)
@@ -645,9 +801,20 @@ def run_check(tier, seed):
             m = [x for x in pc.stderr.split('\n') if x.startswith('malloc_size')]
             if m and m[-1].split()[1] != '0':
                 leak.append((name, m[-1]))
+            last_tab, last_dump = {}, {}
             for i, line in enumerate(lines):
                 evals += 1
                 parts = answers[i].split(' ## ')
+                o0 = line.split(' ')
+                if o0[0] == 'TAB':
+                    last_tab[o0[1]] = parts[0]
+                elif o0[0] == 'DUMP':
+                    last_dump[o0[1]] = parts[0]
+                elif o0[0] == 'DELATT' and parts[0] == '0':
+                    c = delete_class(last_tab.get(o0[1], ''), last_dump.get(o0[1], ''), int(o0[2]), o0[3].split(':')[1])
+                    dist['del:' + c] = dist.get('del:' + c, 0) + 1
+                    if c != 'all-buckets-increasing':
+                        nontrivial.add('%s#%d' % (name, i))
                 mod = parts[0]
                 spec = mod if len(parts) < 2 or parts[1] == '=' else parts[1]
                 op = line.split(' ')[0]
@@ -684,7 +851,10 @@ def run_check(tier, seed):
                          'pair of files with hash sizes drawn from {1,2,3,8,64,256} per table and format CDF-1/2/5; names: ASCII, names chosen to collide with an '
                          'existing name under the real Bernstein hash, composed/decomposed UTF-8 spellings, lengths up to NC_MAX_NAME and beyond, illegal names; '
                          'ids mostly valid, some negative/huge. non-trivial = distinct request that returned an error, or is a delete/rename/copy/reopen/redef, or uses a '
-                         'colliding / non-NFC / maximal-length name, or a bucket dump showing a collision, or an on-disk check' % (nep, nops))
+                         'colliding / non-NFC / maximal-length name, or a bucket dump showing a collision, or an on-disk check, or a delete from a list '
+                         'whose table has a non-increasing bucket. Plus 4 directed histories (table sizes 1, 2, 3, defaults) and a random gadget: rename a low '
+                         'id into the bucket of a higher id, delete an id between them, look up / overwrite the higher one, close + reopen; '
+                         'distribution keys seq:* (generated) and del:* (measured on the model tables before each successful del_att)' % (nep, nops))
         V.cov['distribution'] = dict(sorted(dist.items()))
         V.cov['samples'] = [l[:240] for l in (scripts[-1][1][:1] + [x for x in scripts[-1][1] if x.split(' ')[0] in ('PUTATT', 'RENATT', 'DELATT', 'COPYATT')][:4])]
         V.cov['malloc_leaks_after_close'] = leak[:5]
@@ -729,6 +899,37 @@ def ids_agree(dump):
         except IndexError:
             return False
     return True
+
+
+def delete_class(tab, dump, varid, namehex):
+    """classify a successful del_att by the state of that attribute list's name table just before it (model TAB/DUMP):
+    is there a bucket that is not increasing, and does it hold an id > deleted BEFORE an id < deleted (the case in which a
+    renumbering that assumes increasing buckets goes wrong)"""
+    import re
+    did = None
+    for part in dump.split(' | ')[1:]:
+        t = part.split(' ')
+        if t[0].startswith('A%d.' % varid) and t[2] == namehex:
+            did = int(t[0].split('.')[1])
+    tabs = tab.split(' ')
+    sel = None
+    if varid == -1:
+        sel = [x for x in tabs if x.startswith('G{')]
+        sel = sel[0] if sel else None
+    else:
+        av = [x for x in tabs if x.startswith('A{')]
+        sel = av[varid] if 0 <= varid < len(av) else None
+    if sel is None or did is None:
+        return 'unknown'
+    res = 'all-buckets-increasing'
+    for b in re.findall(r'\d+:([\d,]+)', sel):
+        ids = [int(x) for x in b.split(',')]
+        if ids != sorted(ids):
+            res = 'some-bucket-not-increasing' if res == 'all-buckets-increasing' else res
+            for a in range(len(ids)):
+                if ids[a] > did and any(x < did for x in ids[a + 1:]):
+                    res = 'larger-id-before-smaller-id-in-a-bucket'
+    return res
 
 
 def has_collision(tab):
